@@ -47,6 +47,8 @@ struct CaseIn {
     /// additionally: the messages as a file opened by the real `adlt remote`, an all-pass stream, and a
     /// `stream_search` with this filter set (the search constructor of src/bin/adlt/remote.rs)
     ws: bool,
+    /// max_chunk_size (>= 1) of the server-loop drive of process_stream_new_msgs
+    rounds_chunk: u64,
 }
 const N_LCS: u32 = 3;
 fn lc_time(g: u32) -> u64 {
@@ -117,7 +119,7 @@ fn case_json(c: &CaseIn) -> Value {
         "budget": c.budget, "offset": c.offset, "chunk": c.chunk,
         "export": {"enabled": c.exp_enabled, "to_keep": c.to_keep.iter().map(|k| vec![k.0 as u64, k.1, k.2]).collect::<Vec<_>>(),
                    "handle": c.handle, "from_ms": c.from_ms, "to_ms": c.to_ms},
-        "ws": c.ws
+        "ws": c.ws, "rounds_chunk": c.rounds_chunk
     })
 }
 fn case_from_json(v: &Value) -> CaseIn {
@@ -146,6 +148,7 @@ fn case_from_json(v: &Value) -> CaseIn {
         from_ms: v["export"]["from_ms"].as_u64(),
         to_ms: v["export"]["to_ms"].as_u64(),
         ws: v["ws"].as_bool().unwrap_or(false),
+        rounds_chunk: v["rounds_chunk"].as_u64().unwrap_or(3).max(1),
     }
 }
 
@@ -214,6 +217,36 @@ fn run_set(filters_json: &[Value], msgs: &[DltMessage], offset: u64, chunk: u64)
     let decisions = msgs.iter().map(|m| match_filters(m, &ctx.filters)).collect();
     process_stream_new_msgs(&mut ctx, offset as usize, msgs, chunk as usize);
     SetRun { active: ctx.filters_active, decisions, idxs: ctx.filtered_msgs.clone(), last_processed: ctx.all_msgs_last_processed_len }
+}
+
+/// process_stream_new_msgs driven the way the server loop (process_file_context) does: every tick hands over ALL
+/// pending messages with offset = all_msgs_last_processed_len, until nothing is pending
+struct RoundsRun {
+    idxs: Vec<usize>,
+    last_processed: usize,
+    rounds: usize,
+    stuck: bool,
+}
+fn run_rounds(filters_json: &[Value], msgs: &[DltMessage], chunk: u64) -> RoundsRun {
+    let log = slog::Logger::root(slog::Discard, slog::o!());
+    let body = json!({ "filters": filters_json }).to_string();
+    let mut ctx = StreamContext::from(&log, "stream", &body).expect("StreamContext::from");
+    let n = msgs.len();
+    let mut rounds = 0;
+    let mut stuck = false;
+    loop {
+        let last = ctx.all_msgs_last_processed_len.min(n);
+        if last >= n {
+            break;
+        }
+        if rounds >= n + 2 {
+            stuck = true;
+            break;
+        }
+        process_stream_new_msgs(&mut ctx, last, &msgs[last..], chunk as usize);
+        rounds += 1;
+    }
+    RoundsRun { idxs: ctx.filtered_msgs.clone(), last_processed: ctx.all_msgs_last_processed_len, rounds, stuck }
 }
 
 struct ExportRun {
@@ -558,19 +591,20 @@ fn record(sink: &mut Sink, tmp: &std::path::Path, c: CaseIn, extra_tags: &[&str]
         let st_nobudget = if c2.budget.is_some() { run_stream(&filters2, &msgs2, None) } else { st.clone() };
         let set = run_set(&filters_json2, &msgs2, c2.offset, c2.chunk);
         let ex = run_export(&tmp2, &c2, &filters_json2, &msgs2, lcs);
+        let rounds = run_rounds(&filters_json2, &msgs2, c2.rounds_chunk);
         // the same set without disabled and marker filters
         let rel: Vec<usize> = (0..filters2.len()).filter(|i| filters2[*i].enabled && filters2[*i].kind != FilterKind::Marker).collect();
         let rel_filters: Vec<Filter> = rel.iter().map(|i| filters2[*i].clone()).collect();
         let rel_json: Vec<Value> = rel.iter().map(|i| filters_json2[*i].clone()).collect();
         let st_rel = run_stream(&rel_filters, &msgs2, None);
         let set_rel = run_set(&rel_json, &msgs2, c2.offset, c2.chunk);
-        (st, st_nobudget, set, ex, st_rel, set_rel)
+        (st, st_nobudget, set, ex, st_rel, set_rel, rounds)
     }));
     let fail = |cl: &str, d: String| Verdict::Fail { clause: cl.into(), detail: d };
     let mut tags: Vec<String> = extra_tags.iter().map(|s| s.to_string()).collect();
     let (obs, verdict) = match &run {
         Err(e) => (O::T(vec![O::L(99)]), fail("no_panic", e.clone())),
-        Ok((st, st_nb, set, ex, st_rel, set_rel)) => {
+        Ok((st, st_nb, set, ex, st_rel, set_rel, rounds)) => {
             let obs = O::T(vec![
                 O::T(vec![
                     O::T(st.fwd.iter().map(|i| O::n(*i)).collect()),
@@ -595,6 +629,7 @@ fn record(sink: &mut Sink, tmp: &std::path::Path, c: CaseIn, extra_tags: &[&str]
                     Some(Ok(idxs)) => O::T(vec![O::T(idxs.iter().map(|i| O::n(*i)).collect())]),
                     Some(Err(_)) => O::T(vec![O::L(1)]),
                 },
+                O::T(vec![O::T(rounds.idxs.iter().map(|i| O::n(*i as u64)).collect()), O::n(rounds.last_processed as u64)]),
             ]);
             // ---- oracle: the property text evaluated directly
             let kept: Vec<u32> = (0..n).filter(|m| keep_rule(&infos, *m, false)).map(|m| m as u32).collect();
@@ -638,6 +673,24 @@ fn record(sink: &mut Sink, tmp: &std::path::Path, c: CaseIn, extra_tags: &[&str]
                     if set.idxs != want {
                         return fail("set_stream_indices", format!("filtered_msgs {:?}, want {:?}", set.idxs, want));
                     }
+                }
+                // the same through the server loop: ticks hand over everything pending, chunk limit 1 / small / > len;
+                // in the end exactly the kept messages are in filtered_msgs, in order, and everything is accounted for
+                if rounds.stuck {
+                    return fail("stream_rounds_progress", format!("{} of {} processed after {} ticks", rounds.last_processed, n, rounds.rounds));
+                }
+                if set.active {
+                    let want: Vec<usize> = (0..n).filter(|m| kept_set[*m]).collect();
+                    if rounds.idxs != want {
+                        return fail("stream_rounds_keep_rule", format!("chunk {}: filtered_msgs {:?} after {} ticks, rule keeps {:?}", c.rounds_chunk, rounds.idxs, rounds.rounds, want));
+                    }
+                    let dropped = (0..n).filter(|m| !kept_set[*m]).count();
+                    if rounds.idxs.len() + dropped != n {
+                        return fail("stream_rounds_counts", format!("kept {} + dropped {} != received {}", rounds.idxs.len(), dropped, n));
+                    }
+                }
+                if rounds.last_processed != n {
+                    return fail("stream_rounds_counts", format!("{} messages reported as processed, {} received", rounds.last_processed, n));
                 }
                 // both implementations agree where both apply
                 if no_event {
@@ -733,7 +786,7 @@ fn record(sink: &mut Sink, tmp: &std::path::Path, c: CaseIn, extra_tags: &[&str]
     let on = |o: Option<u64>| copt(o.map(|x| x.to_string()));
     let cb = |v: Vec<bool>| clist(&v.iter().map(|b| cbool(*b)).collect::<Vec<_>>());
     let input_coq = format!(
-        "(mkCase {} {} {} {} {} {} {} {} {} {} {} {} {} {} {})",
+        "(mkCase {} {} {} {} {} {} {} {} {} {} {} {} {} {} {} {})",
         clist(&frows),
         n,
         on(c.budget),
@@ -748,11 +801,12 @@ fn record(sink: &mut Sink, tmp: &std::path::Path, c: CaseIn, extra_tags: &[&str]
         cnums(&c.msgs.iter().map(|m| m.lc).collect::<Vec<_>>()),
         cb(c.msgs.iter().map(|m| m.lc < N_LCS).collect()),
         clist(&c.to_keep.iter().map(|e| cb(c.msgs.iter().map(|m| keeps(e, m)).collect())).collect::<Vec<_>>()),
-        cbool(search.is_some())
+        cbool(search.is_some()),
+        c.rounds_chunk
     );
     // the meaning Exec/C12.v gives to the plugin's own lifecycle filters, checked against the real matcher
     let mut lc_filter_bad = false;
-    if let Ok((_, _, _, ex, _, _)) = &run {
+    if let Ok((_, _, _, ex, _, _, _)) = &run {
         let mut lists: Vec<Vec<u32>> = vec![vec![u32::MAX]];
         for k in 1..=ex.exported.len() {
             lists.push(ex.exported[..k].to_vec());
@@ -788,7 +842,7 @@ fn record(sink: &mut Sink, tmp: &std::path::Path, c: CaseIn, extra_tags: &[&str]
     if !c.to_keep.is_empty() {
         tags.push(if c.handle { "export_lifecycles_with_table" } else { "export_lifecycles_no_table" }.into());
     }
-    if let Ok((_, _, _, ex, _, _)) = &run {
+    if let Ok((_, _, _, ex, _, _, _)) = &run {
         if !ex.exported.is_empty() {
             tags.push(format!("export_lifecycles_found{}", ex.exported.len()));
         }
@@ -812,6 +866,11 @@ fn record(sink: &mut Sink, tmp: &std::path::Path, c: CaseIn, extra_tags: &[&str]
     }
     if (c.chunk as usize) < n {
         tags.push("chunk_limited".into());
+    }
+    if (c.rounds_chunk as usize) < n {
+        tags.push(format!("rounds_pending_gt_chunk{}", if c.rounds_chunk == 1 { "_1" } else { "_small" }));
+    } else {
+        tags.push("rounds_single_tick".into());
     }
     if mispredicted > 0 {
         tags.push("matches_not_as_predicted".into());
@@ -930,7 +989,13 @@ fn gen_case(rng: &mut Rng, big: bool) -> CaseIn {
             f.as_object_mut().unwrap().remove("lifecycles");
         }
     }
-    CaseIn { filters, msgs, budget, offset, chunk, exp_enabled, to_keep, handle, from_ms, to_ms, ws }
+    let rounds_chunk = match rng.below(5) {
+        0 => 1,
+        1 | 2 => rng.range(2, 5),
+        3 => rng.range(1, nm.max(1)),
+        _ => 1 << 30,
+    };
+    CaseIn { filters, msgs, budget, offset, chunk, exp_enabled, to_keep, handle, from_ms, to_ms, ws, rounds_chunk }
 }
 
 fn simple_msgs() -> Vec<MsgSpec> {
@@ -957,6 +1022,7 @@ fn corpus(plan: &mut Plan) {
         to_keep: vec![],
         handle: false,
         ws: false,
+        rounds_chunk: 3,
         from_ms: None,
         to_ms: None,
     };
@@ -1032,6 +1098,7 @@ fn corpus(plan: &mut Plan) {
             .map(|i| MsgSpec { ecu: rng.below(3) as u8, ext: if rng.chance(1, 6) { None } else { Some((rng.below(3) as u8, rng.below(2) as u8)) }, lc: 0, rt: i })
             .collect();
         c.offset = 17;
+        c.rounds_chunk = 64;
         plan.push((c, vec!["corpus", "long_stream"]));
     }
     // empty stream
@@ -1075,6 +1142,7 @@ fn exhaustive(plan: &mut Plan, max: usize) {
                 handle: false,
                 // the search constructor must drop disabled filters of every kind
                 ws: (!a.1 || !b.1) && !a.2 && !b.2,
+                rounds_chunk: 1 + (count as u64 % 3),
                 from_ms: None,
                 to_ms: None,
             };
